@@ -1998,10 +1998,12 @@ func innerBlockInInline(box Box, skipStack tree.ResumeStack) (Box, Box, tree.Res
 			index += 1 // Resume *after* the block
 		} else {
 			var newChild Box
-			if InlineT.IsInstance(child) {
+			if InlineT.IsInstance(child) && !child.Box().IsRunning() {
 				newChild, blockLevelBox, resumeAt = innerBlockInInline(child, skipStack)
 				skipStack = nil
 			} else {
+				// (a running inline box is left as it is, like by the other passes: BlockInInline
+				// returns it unchanged, and its content is completed in the margin box)
 				if skipStack != nil {
 					panic("Should not skip here")
 				}
